@@ -424,6 +424,10 @@ class Engine:
                 raise
         if isinstance(v, SExcClass):
             v = SExc(v.name, ())
+        if isinstance(v, SClassRef) and v.cls.name in BUILTIN_EXC_BASES:
+            v = SExc(v.cls.name, ())             # exception class defined in the analysed code (bases listed in BUILTIN_EXC_BASES)
+        if isinstance(v, SObj) and v.cls is not None and v.cls.name in BUILTIN_EXC_BASES:
+            v = SExc(v.cls.name, ())
         if not isinstance(v, SExc):
             raise Undecided(f"raise of {v!r}")
         raise SymRaise(v, st)
@@ -495,7 +499,9 @@ class Engine:
         if h.type is None:
             return True
         t = self.ev(run, h.type, fr)
-        names = [x.name for x in t] if isinstance(t, tuple) else [t.name]
+        def nm(x):
+            return x.cls.name if isinstance(x, SClassRef) else x.name
+        names = [nm(x) for x in t] if isinstance(t, tuple) else [nm(t)]
         return any(exc_is_subclass(exc.cls_name, n) for n in names)
 
     # -- loops ----------------------------------------------------------
